@@ -185,6 +185,13 @@ def documented_modifiers(ctx) -> set:
 
 
 def check_modifier_loop(ctx):
+    """One iteration of the stripping loop, walked on the CFG for every modifier character and
+    both values of its flag: first occurrence -> its own flag becomes True and exactly one
+    character is dropped; repeated -> ValueError.  Insensitive to where the `elem = elem[1:]` is
+    written (per arm or hoisted), to `while True/break` vs `while len(elem) != 0`, to arm order."""
+    from ..absim import eval_bool, simulate
+    from ..typestate import NoReturn
+
     m = ctx.model
     f = m.func("_array_types._make_array_cached")
     ctx.saw(f)
@@ -195,65 +202,120 @@ def check_modifier_loop(ctx):
     if len(loops) != 1:
         raise AnalysisError("C14.3: the modifier-stripping loop (`while ...: first_char = elem[0]; if first_char == ...`) is not present in a recognised form")
     lp = loops[0]
-    chain = [x for x in lp.body if isinstance(x, ast.If) and isinstance(x.test, ast.Compare) and norm(x.test.left) == "first_char"]
-    need(len(chain) == 1, "C14.3: expected one if/elif chain on first_char")
-    arms = []
-    st = chain[0]
-    tail = None
-    while True:
-        t = st.test
-        if isinstance(t, ast.Compare) and norm(t.left) == "first_char" and isinstance(t.ops[0], ast.Eq) and isinstance(t.comparators[0], ast.Constant):
-            arms.append((t.comparators[0].value, st))
-        else:
-            tail = st
-            break
-        if len(st.orelse) == 1 and isinstance(st.orelse[0], ast.If):
-            st = st.orelse[0]
-        else:
-            tail = st.orelse
-            break
-    chars = {c for c, _ in arms}
-    if chars != docchars:
-        ctx.bad("C14.3", f, chain[0], f"the modifier characters handled ({sorted(chars)}) differ from the documented ones ({sorted(docchars)})",
-                construct=f"modifier arms {sorted(chars)} vs docs {sorted(docchars)}")
+    chars = sorted({n.comparators[0].value for n in ast.walk(lp) if isinstance(n, ast.Compare) and norm(n.left) == "first_char" and isinstance(n.comparators[0], ast.Constant)})
+    if set(chars) != docchars:
+        ctx.bad("C14.3", f, lp, f"the modifier characters handled ({chars}) differ from the documented ones ({sorted(docchars)})",
+                construct=f"modifier arms {chars} vs docs {sorted(docchars)}")
     else:
-        ctx.ok("C14.3", f.qualname, f"modifier arms {sorted(chars)} = documented 'Prepend' bullets")
-    flags = {}
-    for c, arm in arms:
-        body = arm.body
-        dup = [x for x in body if isinstance(x, ast.If)]
-        sets = [x for x in body if isinstance(x, ast.Assign) and isinstance(x.value, ast.Constant) and x.value.value is True]
-        strips = [x for x in body if isinstance(x, ast.Assign) and norm(x) == "elem = elem[1:]"]
-        ok = len(dup) == 1 and len(sets) == 1 and len(strips) == 1 and len(body) == 3
-        if not ok:
-            ctx.bad("C14.3", f, arm, f"the `{c}` arm is not of the form (raise if already seen; set its flag; drop one character)", construct=f"arm '{c}' shape")
+        ctx.ok("C14.3", f.qualname, f"modifier characters {chars} = documented 'Prepend' bullets")
+    g = NoReturn(m).cfg(f)
+    hdr = next((n for n in g.live_nodes() if n.kind == "while" and n.ast is lp.test), None)
+    need(hdr is not None, "C14.3: loop header not found in the CFG")
+    body_start = [s_ for k, s_ in hdr.succ if k == "t"]
+    need(body_start, "C14.3: loop body not reachable")
+    loop_ids = g.reach_from(body_start[0], avoid=lambda n: n is hdr)
+    after_loop = {s_.id for k, s_ in hdr.succ if k == "f"}
+    for n_id in list(loop_ids):
+        for k, s_ in g.nodes[n_id].succ:
+            if k == "brk":
+                after_loop.add(s_.id)
+
+    def run(char, flags):
+        def atom(e):
+            t = norm(e)
+            if isinstance(e, ast.Compare) and len(e.ops) == 1 and norm(e.left) == "first_char" and isinstance(e.comparators[0], ast.Constant):
+                v = e.comparators[0].value == char
+                return v if isinstance(e.ops[0], ast.Eq) else not v
+            if isinstance(e, ast.Compare) and "len(elem)" in t:
+                if t in ("len(elem) == 0", "0 == len(elem)"):
+                    return False
+                if t in ("len(elem) != 0", "len(elem) > 0", "0 != len(elem)"):
+                    return True
+            if t == "elem":
+                return True
+            if isinstance(e, ast.Compare) and t.startswith("elem.count('=')"):
+                return char == "name="
+            if isinstance(e, ast.Name):
+                return flags.get(e.id)  # None = unknown: both sides are explored
+            raise AnalysisError(f"C14.3: unrecognised condition `{t}` in the modifier loop")
+
+        def stop(n):
+            return n is hdr or n.kind in ("raise", "return", "exit", "exit_e", "exit_b") or n.id in after_loop
+
+        def event_of(n):
+            a = n.ast
+            if n.kind == "stmt" and isinstance(a, ast.Assign):
+                tx = norm(a)
+                if tx == "elem = elem[1:]":
+                    return "strip"
+                if isinstance(a.value, ast.Constant) and a.value.value is True and isinstance(a.targets[0], ast.Name):
+                    return "flag:" + a.targets[0].id
+                if "split('=')" in tx:
+                    return "dropname"
+            return None
+
+        return simulate(g, body_start[0], stop, lambda n: eval_bool(n.ast, atom), None, event_of)
+
+    flags_of = {}
+    ok_all = True
+    for c in chars:
+        outs = run(c, {})
+        # learn the flag of this character: the flag set on the path that continues the loop
+        cont = [o for o in outs if o.end is hdr]
+        fl = {e[5:] for o in cont for e in o.events if e.startswith("flag:")}
+        if len(fl) != 1:
+            ok_all = False
+            ctx.bad("C14.3", f, lp, f"a first `{c}` does not set exactly one flag and continue with the rest of the token (flags set: {sorted(fl)})", construct=f"arm '{c}': flags {sorted(fl)}")
             continue
-        flag = norm(sets[0].targets[0])
-        flags[c] = flag
-        d = dup[0]
-        if norm(d.test) != flag:
-            ctx.bad("C14.3", f, d, f"the `{c}` arm tests `{norm(d.test)}` instead of its own flag `{flag}`: the meaning of `{c}` would depend on the other modifiers / their order")
-        rs = [x for x in d.body if isinstance(x, ast.Raise)]
-        if not (len(rs) == 1 and isinstance(rs[0].exc, ast.Call) and norm(rs[0].exc.func) == "ValueError"):
-            ctx.bad("C14.3", f, d, f"a repeated `{c}` is not rejected with ValueError")
-        elif norm(d.test) == flag:
-            ctx.ok("C14.3", f.qualname, f"arm '{c}': raise ValueError if {flag}; {flag} = True; drop one character")
-    if len(set(flags.values())) != len(flags):
-        ctx.bad("C14.3", f, chain[0], f"two modifiers share one flag: {flags}", construct=f"flags {flags}")
+        flags_of[c] = fl.pop()
+    if len(set(flags_of.values())) != len(flags_of):
+        ok_all = False
+        ctx.bad("C14.3", f, lp, f"two modifiers share one flag: {flags_of}", construct=f"flags {flags_of}")
+    for c, flag in flags_of.items():
+        others = {v: False for k, v in flags_of.items() if k != c}
+        for own in (False, True):
+            for other_val in (False, True):
+                env = {v: other_val for v in others}
+                env[flag] = own
+                outs = run(c, env)
+                for o in outs:
+                    if own:
+                        good = o.end.kind == "raise" and o.end.info.get("kinds") == ["ValueError"]
+                        if not good:
+                            ok_all = False
+                            ctx.bad("C14.3", f, lp, f"a repeated `{c}` (its flag `{flag}` already set, other modifiers {'present' if other_val else 'absent'}) is not rejected with ValueError "
+                                    f"(ends at `{o.end.text()}`)", construct=f"arm '{c}': repeat not rejected (others {'set' if other_val else 'unset'})")
+                    else:
+                        strips = [e for e in o.events if e == "strip"]
+                        sets = [e for e in o.events if e.startswith("flag:")]
+                        good = o.end is hdr and len(strips) == 1 and sets == ["flag:" + flag]
+                        if not good:
+                            ok_all = False
+                            ctx.bad("C14.3", f, lp, f"a first `{c}` (other modifiers {'present' if other_val else 'absent'}) does not (set `{flag}`, drop exactly one character, continue): "
+                                    f"events {list(o.events)}, ends at `{o.end.text()}` -- the meaning of `{c}` would depend on the other modifiers / their order",
+                                    construct=f"arm '{c}': first occurrence with others {'set' if other_val else 'unset'} -> {list(o.events)}")
+    # `name=` and plain characters
+    outs = run("name=", {v: False for v in flags_of.values()})
+    if not any(o.end is hdr and "dropname" in o.events for o in outs):
+        ok_all = False
+        ctx.bad("C14.3", f, lp, "the documentation-only `name=` prefix is no longer dropped inside the stripping loop (so that modifiers may come before or after it)", construct="name= arm")
+    outs = run("x", {v: False for v in flags_of.values()})
+    if not all(o.end.id in after_loop for o in outs):
+        ok_all = False
+        ctx.bad("C14.3", f, lp, "an ordinary first character does not end the stripping loop", construct="plain character")
     # the flags are initialised exactly once per token, outside the loop
-    for c, flag in flags.items():
+    for c, flag in flags_of.items():
         inits = [x for x in ast.walk(f.node) if isinstance(x, ast.Assign) and norm(x.targets[0]) == flag and isinstance(x.value, ast.Constant) and x.value.value is False]
         inside = [x for x in inits if any(y is x for y in ast.walk(lp))]
         if inside:
+            ok_all = False
             ctx.bad("C14.3", f, inside[0], f"the flag `{flag}` is reset inside the stripping loop: a repeated `{c}` (e.g. on both sides of `name=`) is no longer detected")
         elif not inits:
+            ok_all = False
             ctx.bad("C14.3", f, lp, f"the flag `{flag}` is never initialised to False", construct=f"{flag} init")
-    # `name=` arm and loop exits
-    t_txt = norm(tail) if not isinstance(tail, list) else " ".join(norm(x) for x in tail)
-    if "elem.count('=') == 1" not in t_txt:
-        ctx.bad("C14.3", f, lp, "the documentation-only `name=` prefix is no longer handled inside the stripping loop", construct="name= arm")
-    else:
-        ctx.ok("C14.3", f.qualname, "`name=` prefix stripped inside the loop (modifiers may come before or after it)")
+    if ok_all:
+        ctx.ok("C14.3", f.qualname, f"each of {chars}: first occurrence sets its own flag {flags_of} and drops one character whatever the other flags are; a repeat raises ValueError; "
+               "`name=` is dropped inside the loop; flags initialised once per token")
 
 
 # ------------------------------------------------------------------------ C14.4
@@ -267,9 +329,14 @@ REFERENCE = {
 def check_legality_matrix(ctx):
     m = ctx.model
     f = m.func("_array_types._make_array_cached")
-    # locate the `if dim_type is _DimType.X` chain
-    chains = [x for x in ast.walk(f.node) if isinstance(x, ast.If) and isinstance(x.test, ast.Compare) and norm(x.test.left) == "dim_type"
-              and isinstance(x.test.ops[0], ast.Is)]
+    # locate the `if dim_type is _DimType.X` chain (in the parser or in a helper it calls)
+    chains = []
+    chain_fn = f
+    for fn_ in [x for x in m.all_functions(include_typeguard=False) if x.module.short == "_array_types"]:
+        for x in ast.walk(fn_.node):
+            if isinstance(x, ast.If) and isinstance(x.test, ast.Compare) and norm(x.test.left) == "dim_type" and isinstance(x.test.ops[0], ast.Is) and "_DimType" in norm(x.test):
+                chains.append(x)
+                chain_fn = fn_
     tops = [c for c in chains if not any(c in p.orelse for p in chains)]
     need(len(tops) == 1, "C14.4: dim_type dispatch chain not found")
     st = tops[0]
@@ -335,7 +402,16 @@ def check_legality_matrix(ctx):
             ctx.ok("C14.4", f.qualname, f"{label} -> ValueError")
     # the single-variadic rule must be reached by every variadic token, `...` included:
     # the `if variadic:` test that guards it must not be bypassed by a `continue`
-    conts = [x for x in ast.walk(f.node) if isinstance(x, ast.Continue)]
+    def innermost_loop(target):
+        best = None
+        for lp_ in ast.walk(f.node):
+            if isinstance(lp_, (ast.For, ast.While)) and any(y is target for b in lp_.body + lp_.orelse for y in ast.walk(b)):
+                if best is None or any(y is lp_ for y in ast.walk(best)):
+                    best = lp_
+        return best
+
+    token_loops = [x for x in f.body if isinstance(x, ast.For)]
+    conts = [x for x in ast.walk(f.node) if isinstance(x, ast.Continue) and token_loops and innermost_loop(x) is token_loops[0]]
     for c in conts:
         ctx.bad("C14.4", f, c, "a `continue` in the per-token loop skips the shared checks that follow (single multi-axis rule, legality matrix) for some tokens")
     # variadic flag for `...`
